@@ -217,6 +217,41 @@ def gen_cuts(chk, B, E):
     return jobs
 
 
+def gen_strip(chk, H, B, E):
+    """strip_ansi = true with capture on: escape sequences (complete, unterminated, with final bytes
+    inside and outside ANSI_TERMINATORS, bare ESC [ and lone ESC) before / inside / after the tags.
+    -> (script, capmax, channel, logmode)"""
+    escs = [b'\x1b[5G', b'\x1b[0m', b'\x1b[', b'\x1b', b'\x1b[31;1m', b'\x1b[K', b'\x1b[?25', b'\x1b[2J\x1b[H']
+    jobs = []
+    k = 0
+
+    def build(parts):
+        return b'x' + parts[0] + B + parts[1] + b'abc' + parts[2] + E + parts[3] + b'y' + parts[4]
+    streams = []
+    for e in escs:
+        for pos in range(5):
+            parts = [b''] * 5
+            parts[pos] = e
+            streams.append(build(parts))
+        for p1, p2 in ((0, 3), (1, 2), (0, 4), (3, 4)):
+            parts = [b''] * 5
+            parts[p1] = e
+            parts[p2] = escs[(escs.index(e) + 3) % len(escs)]
+            streams.append(build(parts))
+        # escape directly in front of a tag with nothing else around, two sections, tag prefix at the end
+        streams.append(e + B + b'p' + E + e + B + b'q' + e + E + B[:6])
+    for s in streams:
+        for cm in (1000, 4, 0):
+            k += 1
+            jobs.append(([s] + ([b''] if k % 2 else []), cm, 'stdout' if k % 3 else 'stderr',
+                         [H.LOG_FILE, H.LOG_NONE, H.LOG_ROTATING][k % 3] if cm else H.LOG_FILE))
+    # fragmented: every single cut of a few of them (model comparison; the judge counts the events)
+    for s in streams[::7]:
+        for c in range(1, len(s)):
+            jobs.append(([s[:c], s[c:]], 1000, 'stdout', H.LOG_FILE))
+    return jobs
+
+
 def gen_finish(chk, B, E):
     """Through the real Subprocess.finish(): every cut point of streams with 0-2 sections, the part
     after the cut still unread in the pipe when the child is reaped.  -> (stream, cut, capmax)"""
@@ -276,6 +311,7 @@ def _run(chk, wd, proved):
     bjobs = gen_boundio(chk)
     cjobs = gen_cuts(chk, B, E)
     fjobs = gen_finish(chk, B, E)
+    tjobs = gen_strip(chk, H, B, E)
     corpus = _load_corpus()
     ejobs = corpus + ejobs
     ctx = multiprocessing.get_context('fork')
@@ -284,6 +320,8 @@ def _run(chk, wd, proved):
         sres = pool.map(H.sum_job, sjobs, chunksize=64)
         bres = pool.map(H.boundio_job, bjobs, chunksize=256)
         cres = pool.map(H.cuts_job, cjobs, chunksize=1)
+        tres = pool.map(H.strip_job, tjobs, chunksize=32)
+        pres = pool.map(H.pools_job, [('stdout', 100), ('stderr', 100), ('stdout', 3), ('stderr', 0)], chunksize=1)
     import c07_seam as S
     with ctx.Pool(vlib.NCPU, initializer=S.worker_init, initargs=(wd,)) as pool:
         fres = pool.map(S.finish_job, fjobs, chunksize=16)
@@ -308,6 +346,31 @@ def _run(chk, wd, proved):
         chk.violation({'kind': 'model of BoundIO.write and implementation disagree', 'maxbytes': bjobs[i][0],
                        'writes': [list(c) for c in bjobs[i][1]], 'buffer_after_each_write': [list(b) for b in bres[i][0]]},
                       nofail=not bres[i][1])
+    # ---- strip_ansi with capture: the scanner sees the raw bytes
+    tcases, tmeta = [], []
+    nbad = 0
+    for (script, cm, ch, lm), (tr, why) in zip(tjobs, tres):
+        nruns += 1
+        chk.dist('strip:cap=%d' % cm)
+        job = ('strip', script, cm, ch, False, lm)
+        if tr is None or why:
+            nbad += 1
+            if nbad <= 10:
+                chk.violation({'kind': 'the implementation violates C08 with strip_ansi on (judged by the reference splitter '
+                                       'on the raw stream)', 'why': why, 'strip_ansi': True, 'case': _jsonable_job(job)})
+            continue
+        tcases.append(exact_term(job, tr))
+        tmeta.append((job, tr))
+    bad, errs = vlib.coq_compare(IMPORTS, 'Z * bool * list rop * list Z', 'check_exact_strip', tcases, wd, tag='strip', shard=150)
+    _report(chk, bad, errs, tmeta, tcases, 'strip')
+    # ---- one delivery per section to every kind of subscriber
+    for bad_list in pres:
+        nruns += 1
+        chk.dist('pools')
+        for text in bad_list[:3]:
+            chk.violation({'kind': 'a section does not reach event listener pools exactly once', 'why': text,
+                           'how': 'real EventListenerPool objects subscribed through _subscribe() to every ordered selection of '
+                                  '<= 3 event types; real dispatcher run with two sections (harness/c08_disp.py:pools_job)'})
     # ---- data arriving only at reap time, through the real Subprocess.finish()
     fcases, fmeta = [], []
     for (s, c, cap, nolog), (log, comm, fail) in zip(fjobs, fres):
@@ -461,6 +524,9 @@ def _run(chk, wd, proved):
                    'reopenlogs()/removelogs() before, between and after the reads at every cut of a stream with a section and a '
                    'trailing tag prefix; the ordinary log configured as a file / NONE / a rotating handler that never rolls / syslog '
                    'only / file and syslog across all families (NONE also in the checksum, cut and finish families); '
+                   'strip_ansi on with escape sequences (complete, unterminated, final byte in/outside the terminator table, bare ESC [, '
+                   'lone ESC) before/inside/after the tags; real EventListenerPool objects subscribed to every ordered selection of '
+                   '<= 3 event types receive each section event exactly once; '
                    'every cut point of 8 streams with 0-2 sections where the part after the cut is still in the pipe at reap, through '
                    'the real Subprocess.finish() on the fake kernel seam; '
                    'distinct_nontrivial = distinct (log length, events, event '
